@@ -35,7 +35,11 @@ impl TransferInfo {
                         .transfer_length
                         .div_ceil(oti.encoding_symbol_length as u64);
                     // TODO should we take into account the FEC encoding symbol length ?
-                    Some(duration.div_f64(nb_packets as f64))
+                    match nb_packets {
+                        // An empty object has no packet to pace
+                        0 => None,
+                        _ => Some(duration.div_f64(nb_packets as f64)),
+                    }
                 }
                 crate::sender::objectdesc::TargetAcquisition::WithinTime(target_time) => {
                     let duration = target_time.duration_since(now).unwrap_or_default();
@@ -50,7 +54,10 @@ impl TransferInfo {
                     let nb_packets = object
                         .transfer_length
                         .div_ceil(oti.encoding_symbol_length as u64);
-                    Some(duration.div_f64(nb_packets as f64))
+                    match nb_packets {
+                        0 => None,
+                        _ => Some(duration.div_f64(nb_packets as f64)),
+                    }
                 }
             }
         }
